@@ -416,7 +416,7 @@ func (p *pullRun) explain(cur *attemptState, b *Blob) (slug, why string) {
 			for _, e := range s.entries {
 				n += e.Size()
 			}
-			under = n < b.Size()
+			under = n < b.Size() || s.gateAt >= 0 // a withheld list may have been cut short by a cancel
 		}
 	}
 	if over && under {
